@@ -61,6 +61,7 @@ func runSeq(r *hlib.Rec, seq []int, mode string, conc int) {
 		}
 	}
 	input := fmt.Sprintf("mode=%s concurrency=%d behaviours=%s", mode, conc, strings.Join(names, ","))
+	r.SampleCase(input)
 	invocations := 0
 	dirty := ""
 	rs := &hlib.RunSpec{Mode: mode, Quiet: true, CompletionTimeout: time.Second,
@@ -199,6 +200,7 @@ func suiteOverlap() hlib.Suite {
 				}
 				r.Eval()
 				input := fmt.Sprintf("iteration 1 (%s) runs 300ms and outlives stage 1; iteration 2 of stage 2 does %s", first, behaviours[b].name)
+				r.SampleCase(input)
 				wantFail, wantPass := uint64(0), uint64(0)
 				inv := 0
 				rs := &hlib.RunSpec{Mode: "file", FileYAML: overlapYAML, Quiet: true, CompletionTimeout: 2 * time.Second}
